@@ -1,6 +1,4 @@
 
-import copy
-
 import numpy as np
 
 
@@ -66,7 +64,7 @@ class Grid:
                     raise TypeError("Values in overlapping dictionary must be integer or set.")
             # Force symmetry in the overlapping must happen here after all the
             # values have been made sets
-            symmetric_value = copy.deepcopy(value)
+            symmetric_value = {ndx: set(overlap_set) for ndx, overlap_set in value.items()}
             for ndx, overlap_set in value.items():
                 for overlap_ndx in overlap_set:
                     if overlap_ndx not in symmetric_value:
